@@ -985,7 +985,7 @@ func genNonTrivial(prop string, gc *genCase, s *rt.Spec, f *FileSpec) bool {
 				nonDefault = true
 			}
 			for _, x := range append(append([]rt.TypeRef{}, t.In...), t.Out...) {
-				if x.K == "U" || x.K == "G" {
+				if x.K == "U" || x.K == "V" || x.K == "G" {
 					nonDefault = true
 				}
 			}
